@@ -1126,6 +1126,95 @@ pub fn is_convex(a: Point3D, b: Point3D, c: Point3D, d: Point3D) -> bool {
     true
 }
 
+/// Verification hook: read-only copy of one triangle slot of a [`Triangulation3D`]
+#[cfg(feature = "verif")]
+#[derive(Clone, Copy, Debug)]
+pub struct VerifPiece {
+    /// The vertices (a, b, c)
+    pub vertices: [Point3D; 3],
+    /// The neighbours across AB, BC and CA
+    pub neighbours: [Option<usize>; 3],
+    /// The constraint flags of AB, BC and CA
+    pub constraints: [bool; 3],
+    /// Is this slot alive?
+    pub valid: bool,
+    /// The cached aspect ratio
+    pub aspect_ratio: Float,
+    /// The cached circumcenter
+    pub circumcenter: Point3D,
+    /// The cached centroid
+    pub centroid: Point3D,
+    /// The cached area of the triangle
+    pub area: Float,
+    /// The index stored in the slot
+    pub index: usize,
+}
+
+#[cfg(feature = "verif")]
+impl Triangulation3D {
+    /// Verification hook: a copy of every slot (valid or not), in storage order
+    pub fn verif_state(&self) -> Vec<VerifPiece> {
+        self.triangles
+            .iter()
+            .map(|t| VerifPiece {
+                vertices: [t.triangle.a(), t.triangle.b(), t.triangle.c()],
+                neighbours: [t.n0, t.n1, t.n2],
+                constraints: [t.c0, t.c1, t.c2],
+                valid: t.valid,
+                aspect_ratio: t.aspect_ratio,
+                circumcenter: t.circumcenter,
+                centroid: t.centroid,
+                area: t.triangle.area(),
+                index: t.index,
+            })
+            .collect()
+    }
+
+    /// Verification hook: one private `split_edge` step (`edge` is 0, 1 or 2)
+    pub fn verif_split_edge(&mut self, i: usize, edge: usize, p: Point3D) -> Result<(), String> {
+        self.split_edge(i, Edge::from_i(edge), p)
+    }
+
+    /// Verification hook: one private `split_triangle` step
+    pub fn verif_split_triangle(&mut self, i: usize, p: Point3D) -> Result<(), String> {
+        self.split_triangle(i, p)
+    }
+
+    /// Verification hook: one private `flip_diagonal` step (`edge` is 0, 1 or 2)
+    pub fn verif_flip_diagonal(&mut self, i: usize, edge: usize) -> Result<(), String> {
+        self.flip_diagonal(i, Edge::from_i(edge))
+    }
+
+    /// Verification hook: the private `get_flipped_aspect_ratio`
+    pub fn verif_flipped_aspect_ratio(
+        &self,
+        i: usize,
+        edge: usize,
+    ) -> Result<Option<Float>, String> {
+        self.get_flipped_aspect_ratio(i, Edge::from_i(edge))
+    }
+
+    /// Verification hook: the private `restore_delaunay`
+    pub fn verif_restore_delaunay(&mut self, max_aspect_ratio: Float) -> Result<(), String> {
+        self.restore_delaunay(max_aspect_ratio)
+    }
+
+    /// Verification hook: the private `add_point`
+    pub fn verif_add_point(&mut self, p: Point3D) -> Result<bool, String> {
+        self.add_point(p)
+    }
+
+    /// Verification hook: the private `refine`
+    pub fn verif_refine(&mut self, max_area: Float, max_aspect_ratio: Float) -> Result<(), String> {
+        self.refine(max_area, max_aspect_ratio)
+    }
+
+    /// Verification hook: the module-private `is_convex`
+    pub fn verif_is_convex(a: Point3D, b: Point3D, c: Point3D, d: Point3D) -> bool {
+        is_convex(a, b, c, d)
+    }
+}
+
 /***********/
 /* TESTING */
 /***********/
